@@ -65,7 +65,7 @@ Clauses(ev, nxt) ==
                                \cup (IF ev.obs.rl = same THEN {} ELSE {"eq-symmetry"})
                                \cup (IF same /\ ev.obs.hashable /\ ~ev.obs.heq THEN {"hash"} ELSE {})
      [] ev.ev = "SetField" -> IF ev.obs.status = "ok" THEN {} ELSE {"setfield"}
-     [] ev.ev = "Bool" -> IF ev.obs.result = Bool(Find(ev.iid).val) THEN {} ELSE {"bool"}
+     [] ev.ev = "Bool" -> IF ("raised" \in DOMAIN ev.obs /\ ev.obs.raised) \/ ev.obs.result # Bool(Find(ev.iid).val) THEN {"bool"} ELSE {}
      [] OTHER -> {})
 
 Init0 == l = 1 /\ inst = << >>
